@@ -330,6 +330,11 @@ class AbstractG1Env(
         right_vel = data.sensordata[r_start:r_end]
         return jnp.stack([left_vel, right_vel])
 
+    def _foot_floor_pair_ids(self) -> tuple[int, int]:
+        """Indices of the foot/floor contact pairs in the compiled model."""
+        mj = self.mujoco_model
+        return (mj.pair("left_foot_floor").id, mj.pair("right_foot_floor").id)
+
     def _snap_to_ground(self, model: mjx.Model, data: mjx.Data) -> mjx.Data:
         """Shift the robot vertically so its lowest point just touches the ground.
 
